@@ -599,10 +599,14 @@ func otherTemplates() []*Tmpl {
 		leaf func() *Node
 		res  byte
 	}{{"-", func() *Node { return pI(1) }, 'I'}, {"!", func() *Node { return pB(true) }, 'B'}, {"^", func() *Node { return pI(1) }, 'I'},
-		{"!", func() *Node { return pN() }, 'B'}, {"!", func() *Node { return pL(0) }, 'B'}} {
+		{"!", func() *Node { return pN() }, 'B'}, {"!", func() *Node { return pL(0) }, 'B'},
+		{"&", func() *Node { return pI(1) }, '?'}, {"&", func() *Node { return pL(2) }, '?'}} {
 		t := &Tmpl{Name: fmt.Sprintf("unary/%s/%d", u.op, i), Fam: "unary", Slots: []Slot{slot("*", u.leaf)}, Build: nary("unary", u.op), Res: u.res, Outer: 2, Pool: 1}
 		if i < 2 {
 			t.Pool = 2
+		}
+		if u.op == "&" {
+			t.Pool = 0
 		}
 		add(t)
 	}
@@ -718,6 +722,164 @@ func otherTemplates() []*Tmpl {
 	return out
 }
 
+// addrTemplates: address-of operands (&ident, &x[i], &m[k], &p()[i], &p().k,
+// &x[i].k, &p()) as arguments of Go (and, as a control, script) functions, at
+// every argument position.  After a Go call anko writes the pointee back to an
+// `&ident` argument; that write-back is an assignment and must not evaluate any
+// operand again.  These templates are not in the nested pool.
+func addrTemplates() []*Tmpl {
+	var out []*Tmpl
+	type form struct {
+		name   string
+		pre    string
+		slots  []Slot
+		build  func(k []*Node) *Node // operand of &
+		intPtr bool                  // the reference knows the pointee is an int
+	}
+	item := func(c, i *Node) *Node { return &Node{T: "item", Kids: []*Node{c, i}} }
+	aref := func() *Node { return &Node{T: "varref", Op: "a", V: intVal(1)} }
+	x3 := func() *Node { return &Node{T: "varref", Op: "x", V: aval{K: 'L', Known: true, N: 3, AllInt: true}} }
+	xm := func() *Node { return &Node{T: "varref", Op: "x", V: aval{K: 'L', Known: true, N: 2}} }
+	mref := func() *Node { return &Node{T: "varref", Op: "m", V: aval{K: 'M', Known: true, N: 1}} }
+	forms := []form{
+		{"&ident", "a = 1", nil, func(k []*Node) *Node { return aref() }, true},
+		{"&x[i]", "x = [1, 2, 3]", []Slot{slot("I", func() *Node { return pI(0) })}, func(k []*Node) *Node { return item(x3(), k[0]) }, true},
+		{"&m[k]", `m = {"a": 1}`, []Slot{slot("S", func() *Node { return pS("a") })}, func(k []*Node) *Node { return item(mref(), k[0]) }, false},
+		{"&p[i]", "", []Slot{slot("L", func() *Node { return pL(3) }), slot("I", func() *Node { return pI(0) })}, func(k []*Node) *Node { return item(k[0], k[1]) }, true},
+		{"&p.k", "", []Slot{slot("M", func() *Node { return pM() })}, func(k []*Node) *Node { return &Node{T: "member", Op: "a", Kids: []*Node{k[0]}} }, true},
+		{"&x[i].k", `x = [{"a": 1}, {"a": 2}]`, []Slot{slot("I", func() *Node { return pI(0) })},
+			func(k []*Node) *Node { return &Node{T: "member", Op: "a", Kids: []*Node{item(xm(), k[0])}} }, false},
+		{"&p", "", []Slot{slot("", func() *Node { return pI(1) })}, func(k []*Node) *Node { return k[0] }, true},
+	}
+	type acallee struct {
+		c      *Callee
+		nargs  []int
+		spread bool // also: & first, the rest from a spread slice
+	}
+	cs := []acallee{
+		{&Callee{Name: "gi1", NFixed: 1, PK: 'A'}, []int{1}, false},
+		{&Callee{Name: "gi2", NFixed: 2, PK: 'A'}, []int{2}, true},
+		{&Callee{Name: "gi3", NFixed: 3, PK: 'A'}, []int{3}, true},
+		{&Callee{Name: "ga0", NFixed: 0, Variadic: true, PK: 'A'}, []int{1, 2}, false},
+		{&Callee{Name: "ga1", NFixed: 1, Variadic: true, PK: 'A'}, []int{1, 2, 3}, true},
+		{&Callee{Name: "gp2", NFixed: 2, PK: 'I', Ptr0: true}, []int{2}, false},
+		{&Callee{Name: "gpv1", NFixed: 1, Variadic: true, PK: 'I', Ptr0: true}, []int{1, 3}, true},
+		{&Callee{Name: "f2", Script: true, NFixed: 2}, []int{2}, false},
+		{&Callee{Name: "fv1", Script: true, NFixed: 1, Variadic: true}, []int{2}, false},
+	}
+	for _, ac := range cs {
+		ac := ac
+		c := ac.c
+		type sh struct {
+			n      int
+			spread bool
+		}
+		var shapes []sh
+		for _, n := range ac.nargs {
+			shapes = append(shapes, sh{n, false})
+		}
+		if ac.spread {
+			shapes = append(shapes, sh{2, true})
+		}
+		for _, shp := range shapes {
+			shp := shp
+			for pos := 0; pos < shp.n; pos++ {
+				pos := pos
+				if (c.Ptr0 || shp.spread) && pos != 0 {
+					continue
+				}
+				for _, f := range forms {
+					f := f
+					if c.Ptr0 && !f.intPtr {
+						continue
+					}
+					for _, via := range []string{"call/ident", "call/var", "call/paren", "call/member", "call/probe", "go/ident", "defer/ident"} {
+						via := via
+						stmt, path := "", via[5:]
+						if via[:2] == "go" {
+							stmt, path = "go", via[3:]
+						} else if via[:5] == "defer" {
+							stmt, path = "defer", via[6:]
+						}
+						var slots []Slot
+						if path == "probe" {
+							slots = append(slots, slot("", func() *Node { return pF(c.Name) }))
+						}
+						off := len(slots)
+						for i := 0; i < shp.n; i++ {
+							i := i
+							switch {
+							case i == pos:
+								slots = append(slots, f.slots...)
+							case shp.spread && i == shp.n-1:
+								need := 1
+								if !c.Variadic {
+									need = c.NFixed - 1
+								}
+								if c.PK == 'I' {
+									slots = append(slots, slot("", func() *Node { return pLI(need) }))
+								} else {
+									slots = append(slots, slot("L", func() *Node { return pL(need) }))
+								}
+							case c.Script || c.PK == 'A':
+								slots = append(slots, slot("*", mixed[i%len(mixed)]))
+							default:
+								slots = append(slots, slot("I", func() *Node { return pI(int64(i + 5)) }))
+							}
+						}
+						nf := len(f.slots)
+						build := func(k []*Node) *Node {
+							n := &Node{T: "call", Callee: c, Path: path, Spread: shp.spread}
+							if path == "probe" {
+								n.CalleeLeaf = k[0]
+							}
+							rest := k[off:]
+							cur := 0
+							for i := 0; i < shp.n; i++ {
+								if i == pos {
+									n.Kids = append(n.Kids, &Node{T: "addr", Pre: f.pre, Kids: []*Node{f.build(rest[cur : cur+nf])}})
+									cur += nf
+									continue
+								}
+								n.Kids = append(n.Kids, rest[cur])
+								cur++
+							}
+							switch stmt {
+							case "go":
+								return &Node{T: "seq", Kids: []*Node{{T: "gostmt", Kids: []*Node{n}}, {T: "expr", Kids: []*Node{pI(0)}}}}
+							case "defer":
+								return &Node{T: "seq", Kids: []*Node{{T: "deferstmt", Kids: []*Node{n}}, {T: "expr", Kids: []*Node{pI(0)}}}}
+							}
+							return n
+						}
+						sp := "plain"
+						if shp.spread {
+							sp = "spread"
+						}
+						pfx := "call"
+						if stmt != "" {
+							pfx = stmt
+						}
+						t := &Tmpl{
+							Name:  fmt.Sprintf("addr/%s/%s/%s%d@%d/%s/%s", pfx, c.Name, sp, shp.n, pos, f.name, path),
+							Fam:   fmt.Sprintf("%s.%s.%s-matched.%s.address-of-argument %s", pfx, calleeClass(c), sp, path, f.name),
+							Slots: slots, Build: build, Outer: 1,
+						}
+						if stmt == "" {
+							t.Res = 'I'
+							if path == "ident" {
+								t.Outer = 2
+							}
+						}
+						out = append(out, t)
+					}
+				}
+			}
+		}
+	}
+	return out
+}
+
 var (
 	tmplOnce sync.Once
 	tmplAll  []*Tmpl
@@ -726,6 +888,7 @@ var (
 func templates() []*Tmpl {
 	tmplOnce.Do(func() {
 		tmplAll = append(otherTemplates(), callTemplates()...)
+		tmplAll = append(tmplAll, addrTemplates()...)
 		seen := map[string]bool{}
 		for _, t := range tmplAll {
 			if seen[t.Name] {
